@@ -35,6 +35,10 @@ DYN = "wannierberri/calculators/dynamic.py"
 COV = "wannierberri/formula/covariant.py"
 TABC = "wannierberri/calculators/tabulate.py"
 MUTANTS = [
+    dict(prop="C08", name="Morb_H declared even under TR", file=COV, old="        self.E = data_K.E_K\n        self.ndim = 1\n        self.transformTR = transform_odd", new="        self.E = data_K.E_K\n        self.ndim = 1\n        self.transformTR = transform_ident"),
+    dict(prop="C08", name="Der3E declared even under inversion", file=COV, old="        self.ndim = 3\n        self.transformTR = transform_odd\n        self.transformInv = transform_odd", new="        self.ndim = 3\n        self.transformTR = transform_odd\n        self.transformInv = transform_ident"),
+    dict(prop="C08", name="get_transform_TR: SS even", file=DK, old="    elif name in ['CC', 'FF', 'OO', 'GG', 'SS', 'rotAA', 'rotAAab', 'CCab_antisym']:  # odd before derivative\n        p = 1", new="    elif name in ['CC', 'FF', 'OO', 'GG', 'rotAA', 'rotAAab', 'CCab_antisym']:  # odd before derivative\n        p = 1\n    elif name in ['SS']:\n        p = 0"),
+    dict(prop="C08", name="InvMass declared odd under TR", file="wannierberri/formula/elementary.py", old="data_K.covariant('Ham', commader=2), data_K.Dcov)\n        self.transformTR = transform_ident", new="data_K.covariant('Ham', commader=2), data_K.Dcov)\n        self.transformTR = transform_odd"),
     dict(prop="C07", name="symmetrize: last operation skipped", file=PSY, old="        return sum(result.transform(s) for s in self.symmetries) / self.size\n\n    def gen_symmetric_tensor", new="        return sum(result.transform(s) for s in self.symmetries[:max(1, self.size - 1)]) / max(1, self.size - 1)\n\n    def gen_symmetric_tensor"),
     dict(prop="C07", name="symmetrize: not normalised", file=PSY, old="        return sum(result.transform(s) for s in self.symmetries) / self.size\n\n    def gen_symmetric_tensor", new="        return sum(result.transform(s) for s in self.symmetries)\n\n    def gen_symmetric_tensor"),
     dict(prop="C07", name="paralfunc: symmetrisation when NOT requested", file=RG, old="        if symmetrize:\n            result = _system.pointgroup.symmetrize(result)", new="        if not symmetrize:\n            result = _system.pointgroup.symmetrize(result)"),
